@@ -54,21 +54,18 @@ theorem mem_ecallKills_of_ovSet (cn : CNode) (inReg : AMap Reg) (he : cn.node.is
   | none =>
     rw [hsig] at hr
     simp only [] at hr ⊢
-    by_cases hk : (knownEcall { cn with regIn := inReg }).isNone = true
-    · simp only [hk, if_true] at hr ⊢
-      intro hm
-      have hlt : r < 32 := by
-        simp only [List.mem_cons, List.mem_nil_iff, or_false] at hm
-        rcases hm with rfl | rfl <;> decide
-      rw [mem_or', mem_ofList [10, 11] r hlt] at hr
-      have : ([10, 11] : List Nat).contains r = true := by simpa using hm
-      simp [this] at hr
+    simp only [if_true] at hr ⊢
+    intro hm
+    have hlt : r < 32 := by
       simp only [List.mem_cons, List.mem_nil_iff, or_false] at hm
-      rcases hm with h | h
-      · exact hr.2.1 h
-      · exact hr.2.2 h
-    · simp only [hk, if_false]
-      simp
+      rcases hm with rfl | rfl <;> decide
+    rw [mem_or', mem_ofList [10, 11] r hlt] at hr
+    have : ([10, 11] : List Nat).contains r = true := by simpa using hm
+    simp [this] at hr
+    simp only [List.mem_cons, List.mem_nil_iff, or_false] at hm
+    rcases hm with h | h
+    · exact hr.2.1 h
+    · exact hr.2.2 h
 
 /-- one machine step, all supported instruction kinds -/
 inductive AStep (g : Cfg) (i : Nat) (s s' : MState) : Prop where
@@ -180,9 +177,7 @@ theorem exec_sound_all (g : Cfg) (V : List Nat) (hf : GoodFactsM g V) (i0 : Nat)
                   exact hno _ hmem (by simpa using h0.2)
                 · simp at hsig
               · simp at hsig
-            · split at h0
-              · simp at h0
-              · simp at h0
+            · simp at h0
           · rw [henv 0 h0]; exact ihz
         refine ⟨?_, ?_, by rw [hentry]; exact ihe, hz'⟩
         · exact sound_of_get_eq s' _ _ (hf.eqOut i hi)
